@@ -126,7 +126,7 @@ func genTransport(g *rand.Rand, tier string) any {
 	case 1:
 		p.Mode = g.IntN(3)
 	case 2:
-		p.Mode = g.IntN(7)
+		p.Mode = g.IntN(8)
 	}
 	if p.Mode == 2 {
 		m := 1 + g.IntN(5)
@@ -668,7 +668,13 @@ func execHTTPTransport(e *Env, p *TransportParams) {
 		}
 		return "addr-" + src, nil
 	}
-	opts := []goat.GoatOverHttpOption{goat.WithConnectionCleanupInterval(time.Minute), goat.WithConnectionTimeout(4 * time.Minute)}
+	idleTimeout, cleanEvery := 4*time.Minute, time.Minute
+	if p.Mode%8 == 7 {
+		// short timeouts, not whole seconds: idle means idle for the timeout, no sooner
+		idleTimeout = []time.Duration{900 * time.Millisecond, 1900 * time.Millisecond, 2500 * time.Millisecond, 10 * time.Second}[p.TickAt%4]
+		cleanEvery = idleTimeout / 3
+	}
+	opts := []goat.GoatOverHttpOption{goat.WithConnectionCleanupInterval(cleanEvery), goat.WithConnectionTimeout(idleTimeout)}
 	A := goat.NewGoatOverHttp(func(string, goat.RpcReadWriter) {}, srcMap, opts...)
 	B := goat.NewGoatOverHttp(onB, srcMap, opts...)
 	rt.hosts["addr-peer-b"] = B
@@ -706,7 +712,52 @@ func execHTTPTransport(e *Env, p *TransportParams) {
 			return false
 		}
 	}
-	switch p.Mode % 7 {
+	switch p.Mode % 8 {
+	case 7:
+		// a connection that carried an envelope half a timeout ago is not idle: cleaner
+		// ticks in between leave it alone and the next envelope is delivered
+		first, second := genEnvelope(p.EnvSeeds[0], true, false), genEnvelope(p.EnvSeeds[len(p.EnvSeeds)-1], true, false)
+		ctx, cancel := context.WithCancel(context.Background())
+		e.OnTeardown(cancel)
+		var got []*Rpc
+		var rerr error
+		e.Go("http.active.reader", func() {
+			if !waitB(ctx) {
+				rerr = ctx.Err()
+				return
+			}
+			for len(got) < 2 {
+				r, err := getB().Read(ctx)
+				if err != nil {
+					rerr = err
+					return
+				}
+				got = append(got, r)
+			}
+		})
+		var w0, w1 error
+		e.Go("http.active.w0", func() { w0 = aToB.Write(ctx, first) })
+		e.NoAutoAdvance = true
+		defer func() { e.NoAutoAdvance = false }()
+		if rr := e.Drive(nil); rr == Crashed || rr == StepLimit {
+			return
+		}
+		e.Advance(idleTimeout / 2)
+		e.Note("fault.clock.jump")
+		if rr := e.Drive(nil); rr == Crashed || rr == StepLimit {
+			return
+		}
+		e.Go("http.active.w1", func() { w1 = aToB.Write(ctx, second) })
+		if rr := e.Drive(nil); rr == Crashed || rr == StepLimit {
+			return
+		}
+		e.Note("nontrivial")
+		e.Note("http.active-connection-ticks")
+		if rerr != nil || w0 != nil || w1 != nil || len(got) != 2 {
+			e.Violate(prop, "active-connection-reaped", "http.connectionCleaner", "a connection with timeout %v that delivered an envelope %v ago was treated as idle: writes returned %v / %v, the reader got %d envelope(s) and %v", idleTimeout, idleTimeout/2, w0, w1, len(got), rerr)
+		} else if !proto.Equal(got[0], first) || !proto.Equal(got[1], second) {
+			e.Violate(prop, "altered", "http", "envelopes arrived altered or out of order")
+		}
 	case 6:
 		// a connection that has just come into being is not idle: the cleaner's first
 		// tick (1 min) arrives while its first POST is still waiting for a reader, far
